@@ -22,12 +22,12 @@ ERRS = ['#NULL!', '#DIV/0!', '#VALUE!', '#REF!', '#NAME?', '#NUM!', '#N/A']
 REFS = ['A1', '$A$1', 'A$1', '$A1', 'AB12', 'Sheet2!A1', 'Sheet2!$A$1',
         "'My Sheet'!A1", "'It''s'!B2", 'A1:B2', '$A$1:$B$2', 'Sheet2!A1:B2',
         "'My Sheet'!A1:B2", 'A:A', '1:1', "'@home'!$B$2"]
-STRS = ['', 'a', 'a b', 'A1', '1', '""'.replace('""', '"'), ',', ')', ': ',
+STRS = ['C:\\data\\', 'a\\"b', '\\', '', 'a', 'a b', 'A1', '1', '""'.replace('""', '"'), ',', ')', ': ',
         '#N/A', "'", '{;}', '%', '[x]', '=1+1', 'é',
         # what the tokenizer / parser treat specially elsewhere
         '@', '@home', 'x:OFFSET', 'use A1:INDEX(B:B,3)', ':INDEX', 'TRUE',
         '#NAME?', '1E+3']
-STR_ALPHABET = 'aA1E "\'!#%(),:;[]{}+-=@'
+STR_ALPHABET = 'aA1E "\'!#%(),:;[]{}+-=@\\'
 
 FULL_LEAVES = ([('num', x) for x in NUMS] + [('bool', x) for x in BOOLS] +
                [('err', x) for x in ERRS] + [('ref', x) for x in REFS] +
@@ -317,6 +317,25 @@ def trees_one(leaves):
         for a in leaves:
             for b in leaves:
                 yield ('bin', op, a, b)
+
+
+def chains(n_ops, leaves, ops=BINOPS_REP):
+    """Every tree of ``n_ops`` binary operators over the first n_ops+1 of
+    ``leaves`` in that left-to-right order (every shape, every operator at
+    every place): rendered with minimal parentheses these are, among others,
+    all flat stretches of n_ops operators."""
+    def build(lo, hi):
+        if lo == hi:
+            yield leaves[lo]
+            return
+        for mid in range(lo, hi):
+            lefts = list(build(lo, mid))
+            rights = list(build(mid + 1, hi))
+            for op in ops:
+                for x in lefts:
+                    for y in rights:
+                        yield ('bin', op, x, y)
+    return build(0, n_ops)
 
 
 def calls(names, leaves, max_args):
